@@ -79,8 +79,20 @@ fn class_of(x: &ExecRef) -> (String, usize) {
     (items.join(","), e.in_flight_max)
 }
 
+/// Run `f` on a fresh OS thread. A violation makes shuttle abandon suspended coroutines (possibly in
+/// the middle of unwinding), which leaves thread-local state behind (e.g. std's panic count, so that
+/// `thread::panicking()` stays true and every mutex unlock poisons). A thread that has hosted a failed
+/// execution is therefore never reused for another search.
+fn on_fresh_thread<T: Send, F: FnOnce() -> T + Send>(f: F) -> T {
+    std::thread::scope(|s| s.spawn(f).join().expect("search thread panicked outside catch_unwind"))
+}
+
 /// all affordable choice prefixes of length <= depth (each is the start of >= 1 schedule)
 pub fn enumerate_prefixes(job: &Job, depth: usize) -> Vec<Vec<usize>> {
+    on_fresh_thread(|| enumerate_prefixes_here(job, depth))
+}
+
+fn enumerate_prefixes_here(job: &Job, depth: usize) -> Vec<Vec<usize>> {
     let (sch, sh) = BoundedDfs::new(job.bound, u64::MAX);
     sh.lock().unwrap().depth_limit = Some(depth);
     let x: ExecRef = Arc::new(Mutex::new(Exec::default()));
@@ -107,6 +119,10 @@ pub fn enumerate_prefixes(job: &Job, depth: usize) -> Vec<Vec<usize>> {
 }
 
 pub fn explore(job: &Job) -> JobResult {
+    on_fresh_thread(|| explore_here(job))
+}
+
+fn explore_here(job: &Job) -> JobResult {
     let (sch, sh) = BoundedDfs::new(job.bound, job.max_executions);
     sh.lock().unwrap().prefix = job.prefix.clone();
     let x: ExecRef = Arc::new(Mutex::new(Exec::default()));
@@ -162,6 +178,10 @@ pub fn explore(job: &Job) -> JobResult {
 
 /// replay one schedule (list of task ids) and return (violation?, log)
 pub fn replay_schedule(body: &Body, tasks: &[usize]) -> (Option<(String, String)>, Vec<Ev>, Option<String>) {
+    on_fresh_thread(|| replay_schedule_here(body, tasks))
+}
+
+fn replay_schedule_here(body: &Body, tasks: &[usize]) -> (Option<(String, String)>, Vec<Ev>, Option<String>) {
     let diverged = Arc::new(Mutex::new(None));
     let sch = Replay { tasks: tasks.to_vec(), pos: 0, started: false, diverged: diverged.clone() };
     let x: ExecRef = Arc::new(Mutex::new(Exec::default()));
@@ -366,6 +386,68 @@ fn main() {
     if args[1] == "replay" {
         std::process::exit(replay_file(&args[2]));
     }
+    if args[1] == "job" {
+        // debugging aid: parmc job '<json Job>' [depth]
+        let job: Job = serde_json::from_str(&args[2]).expect("job json");
+        if let Ok(pre) = std::env::var("PARMC_PREJOB") {
+            let pj: Job = serde_json::from_str(&pre).expect("prejob json");
+            let r = explore(&pj);
+            println!("prejob: schedules {} violation {:?}", r.schedules, r.violation.map(|v| (v.0, v.1)));
+        }
+        if args.len() > 4 {
+            // stress: the same partitioned search on N OS threads at once
+            let depth: usize = args[3].parse().unwrap();
+            let n: usize = args[4].parse().unwrap();
+            std::thread::scope(|sc| {
+                for t in 0..n {
+                    let job = job.clone();
+                    sc.spawn(move || {
+                        let ps = enumerate_prefixes(&job, depth);
+                        let mut bad = 0;
+                        let mut total = 0;
+                        for p in &ps {
+                            let r = explore(&Job { prefix: p.clone(), ..job.clone() });
+                            total += r.schedules;
+                            if r.machinery.is_some() {
+                                bad += 1;
+                            }
+                        }
+                        println!("thread {}: {} prefixes, {} schedules, {} diverged", t, ps.len(), total, bad);
+                    });
+                }
+            });
+            return;
+        }
+        if args.len() > 3 {
+            let depth: usize = args[3].parse().unwrap();
+            let ps = enumerate_prefixes(&job, depth);
+            println!("{} prefixes", ps.len());
+            // explore on a fresh OS thread (no state left over from earlier runners)
+            let (job2, ps2) = (job.clone(), ps.clone());
+            std::thread::spawn(move || {
+                let mut bad = 0;
+                for p in &ps2 {
+                    let r = explore(&Job { prefix: p.clone(), ..job2.clone() });
+                    if r.machinery.is_some() {
+                        bad += 1;
+                    }
+                }
+                println!("fresh thread: {} diverged", bad);
+            })
+            .join()
+            .unwrap();
+            for p in &ps {
+                let r = explore(&Job { prefix: p.clone(), ..job.clone() });
+                if r.machinery.is_some() || r.violation.is_some() {
+                    println!("prefix {:?}: machinery {:?} violation {:?}", p, r.machinery, r.violation.map(|v| (v.0, v.1)));
+                }
+            }
+        } else {
+            let r = explore(&job);
+            println!("schedules {} complete {} machinery {:?} violation {:?}", r.schedules, r.complete, r.machinery, r.violation.map(|v| (v.0, v.1, v.2)));
+        }
+        return;
+    }
     if args[1] == "one" {
         // debugging aid: parmc one <threads> <queue> <sets> <bound>
         let n = |i: usize| args[i].parse::<usize>().unwrap();
@@ -467,6 +549,8 @@ fn main() {
         l.count("states", r.points);
         l.count("transitions", r.points);
         l.count("work_items", 1);
+        // real-thread conformance replays are counted by the parreal step (0 until it has run)
+        l.count("traces_validated_against_impl", 0);
         l.count("outcome_classes_summed_over_work_items", r.classes.len() as u64);
         if r.max_in_flight >= 2 {
             l.count("jobs_with_2_or_more_sets_in_flight", 1);
@@ -477,6 +561,12 @@ fn main() {
         let e = l.counters.entry(match job.bound { 0 => "schedules_bound_0", 1 => "schedules_bound_1", 2 => "schedules_bound_2", _ => "schedules_bound_3" }).or_insert(0);
         *e += r.schedules;
         if let Some(m) = r.machinery {
+            if std::env::var("PARMC_DIAG").is_ok() {
+                let again = explore(job);
+                let base = Job { prefix: vec![], ..job.clone() };
+                let ps = enumerate_prefixes(&base, 30);
+                eprintln!("DIAG: second explore machinery={:?} violation={:?}; re-enumeration: {} prefixes, contains this prefix: {}", again.machinery, again.violation.map(|v| (v.0, v.1)), ps.len(), ps.contains(&job.prefix));
+            }
             eprintln!("MACHINERY: schedule replay diverged for {:?}: {}", job, m);
             std::process::exit(2);
         }
